@@ -8,6 +8,11 @@
 (*          (B) for a name the specification says is callable under this   *)
 (*              configuration: it is in the table, and the table's bounds  *)
 (*              admit the count <=> the specification allows the count     *)
+(*          (H) the table entry read through funcs.Clone() /               *)
+(*              AddExperimentalFuncs is the one read at process start,     *)
+(*              whatever was compiled in earlier epochs of the process     *)
+(*              (the harness runs the histories D,E,D and E,D,E); together *)
+(*              with (A) this makes acceptance independent of history      *)
 (*  eval    an accepted call never fails with an arity complaint; a        *)
 (*          not-implemented name never yields a value                      *)
 (*  probe   the probe gives the value the specification states for THAT    *)
@@ -25,6 +30,8 @@ Site(out) == IF Has(out, "site") THEN out.site ELSE "?"
 
 Where(c) == c.name \o "|c" \o ToString(c.count) \o "|" \o c.cfg
 Pos(o) == IF o.pos = "nested" THEN "|nested" ELSE ""
+RECURSIVE HistStr(_, _)
+HistStr(h, j) == IF j > Len(h) THEN "" ELSE (IF j > 1 THEN "+" ELSE "") \o h[j] \o HistStr(h, j + 1)
 TableStr(t) == IF t.present THEN "table-" \o ToString(t.min) \o ".." \o ToString(t.max) ELSE "table-absent"
 GotStr(out) == CASE out.k = "ok"  -> "ok" \o ToString(Len(out.items)) \o ":" \o TypeStr(out.items, 1)
                  [] out.k \in {"err", "cerr"} -> out.k \o (IF "WrongArity" \in ClsOf(out) THEN "+WrongArity" ELSE "")
@@ -40,8 +47,11 @@ VAccept(o) ==
       spec == Known(c.name) /\ Callable(Entry(c.name), c.cfg)
       allowed == spec /\ c.count \in Entry(c.name).counts
       bOk == spec => (t.present /\ (InBounds(t.min, t.max, c.count) = allowed))
-      good == ~IsFailure(o.out) /\ aOk /\ bOk
+      hOk == o.tbl = o.tbl0
+      good == ~IsFailure(o.out) /\ hOk /\ aOk /\ bOk
       sig == (IF IsFailure(o.out) THEN "fn|compile|" \o Where(c) \o "|" \o GotStr(o.out)
+              ELSE IF ~hOk THEN "fn|table-changed-by-earlier-compilations|" \o Where(c) \o "|was-" \o TableStr(o.tbl0)
+                                \o "|now-" \o TableStr(t) \o "|after-" \o HistStr(o.hist, 1)
               ELSE IF ~aOk THEN "fn|compile-vs-table|" \o Where(c) \o "|" \o TableStr(t) \o "|compile-" \o (IF accepted THEN "accepted" ELSE "rejected")
               ELSE IF ~t.present THEN "fn|missing-from-table|" \o Where(c)
               ELSE "fn|table-vs-spec|" \o Where(c) \o "|" \o TableStr(t) \o "|spec-" \o (IF allowed THEN "allows" ELSE "forbids"))
